@@ -14,6 +14,9 @@ import (
 type Seg struct {
 	Text   string `json:"text"`
 	Quoted bool   `json:"quoted"`
+	// Expr, if not empty, is an arithmetic expression whose value, written
+	// in decimal, is Text: the segment is the arithmetic expansion $((Expr)).
+	Expr string `json:"expr,omitempty"`
 }
 
 // JSON cannot carry text that is not valid UTF-8: it is recorded as
